@@ -9,6 +9,7 @@ use crate::engine::{fill, CaseRec, Run, Tier, Violation};
 use crate::pair::{AppEvt, EndSpec, Mech, Pair, Side};
 use crate::wire::{self, RefFrame};
 use proptest::prelude::*;
+use rzmq::socket::options as opt;
 use serde::{Deserialize, Serialize};
 
 const GOOD_USER: &str = "alice";
@@ -58,6 +59,10 @@ pub struct Case {
   pub local_type: String,
   pub stream: Stream,
   pub chunks: Vec<u16>,
+  /// PLAIN listener: 0 = user and password configured, 1 = only the user, 2 = only the password,
+  /// 3 = neither (nobody can authenticate against a listener without complete credentials)
+  #[serde(default)]
+  pub plain_cfg: u8,
 }
 
 fn item_strategy() -> impl Strategy<Value = Item> + Clone {
@@ -110,15 +115,15 @@ fn case_strategy() -> impl Strategy<Value = Case> + Clone {
     prop::sample::select(vec!["PULL", "PUSH", "ROUTER", "DEALER", "SUB", "REP"]).prop_map(|s| s.to_string()),
     stream_strategy(),
     prop::collection::vec(prop_oneof![1 => Just(u16::MAX), 2 => 1u16..80], 0..10),
-    prop::bool::weighted(0.45),
+    (prop::bool::weighted(0.45), prop::sample::select(vec![0u8, 0, 0, 1, 2, 3])),
   )
-    .prop_map(|(mech, local_server, allow_zmtp2, local_type, mut stream, chunks, same_mech)| {
+    .prop_map(|(mech, local_server, allow_zmtp2, local_type, mut stream, chunks, (same_mech, plain_cfg))| {
       // bias towards reaching the mechanism's own token parser
       if same_mech {
         stream.mech_name = mech.name().to_string();
         stream.as_server = (!local_server) as u8;
       }
-      Case { mech, local_server, allow_zmtp2, local_type, stream, chunks }
+      Case { mech, local_server, allow_zmtp2, local_type, stream, chunks, plain_cfg }
     })
 }
 
@@ -224,6 +229,14 @@ fn legitimately_completes(c: &Case) -> bool {
 pub fn local_spec(c: &Case) -> EndSpec {
   let mut spec = EndSpec::new(&c.local_type, c.local_server, c.mech);
   spec.plain = Some((GOOD_USER.into(), GOOD_PASS.into()));
+  if c.mech == Mech::Plain && c.local_server {
+    match c.plain_cfg {
+      1 => spec.drop_opts.push(opt::PLAIN_PASSWORD),
+      2 => spec.drop_opts.push(opt::PLAIN_USERNAME),
+      3 => spec.drop_opts.extend([opt::PLAIN_USERNAME, opt::PLAIN_PASSWORD]),
+      _ => {}
+    }
+  }
   spec.allow_zmtp2 = c.allow_zmtp2;
   spec.key_seed = 501;
   spec.peer_key_seed = if c.local_server { None } else { Some(777) };
@@ -259,6 +272,7 @@ fn prop_case(c: &Case, rec: &mut CaseRec) -> Result<(), Violation> {
   rec.label_if(c.stream.items.iter().any(|i| matches!(i, Item::Data { .. })), "has_data_frames");
   let legit = legitimately_completes(c);
   rec.label_if(legit, "legitimate_plain_server");
+  rec.label_if(c.mech == Mech::Plain && c.local_server && c.plain_cfg != 0, "plain_listener_with_incomplete_credentials");
   if legit {
     return Ok(());
   }
